@@ -98,7 +98,7 @@ func faultPostRun(r *Run, res *Result) {
 		// quick tier: a seeded subset of the single placements on long traces
 		max := 100
 		if thorough {
-			max = 1500
+			max = 600
 		}
 		if len(cases) > max {
 			for i := len(cases) - 1; i > 0; i-- {
@@ -111,6 +111,9 @@ func faultPostRun(r *Run, res *Result) {
 	baseTape := append([]uint32(nil), r.t.Used()...)
 	faultRuns, imgRuns := 0.0, 0.0
 	for ci, fc := range cases {
+		if overTime(res) {
+			break
+		}
 		tape := NewReplayTape(baseTape)
 		tape.rng = NewRNG(mix64(res.Seed, uint64(ci)+1)) // draws beyond the recorded tape
 		tape.trace = r.t.trace
@@ -157,7 +160,7 @@ func faultPostRun(r *Run, res *Result) {
 				v = &Violation{Oracle: "fault-surfaced", Msg: msg}
 			}
 		}
-		if v == nil && !child.budgetStop && (ci%5 == 0 || r.faultReplay != nil || thorough && ci%2 == 0) {
+		if v == nil && !child.budgetStop && (ci%5 == 0 || r.faultReplay != nil || thorough && ci%3 == 0) {
 			// crash atomicity and durability at every instant during and after the fault
 			cres := &Result{Seed: res.Seed, Check: res.Check, Stats: RunStats{Probes: map[string]int{}, Faults: map[string]int{}}}
 			pp.Torn = ci%10 == 0
